@@ -52,8 +52,12 @@ func enumSwitchShapes(m int, bodies []string) [][]swEntry {
 	return res
 }
 
-func c03Case(entries []swEntry, context string) *Case {
-	atoms := &AtomTable{Coded: true}
+func c03Case(entries []swEntry, context string) *Case { return c03CaseMode(entries, context, true) }
+
+// c03CaseMode with coded=false uses SMT-string names (spelling-dependent
+// decisions become solver queries, see c01SpelledShapes).
+func c03CaseMode(entries []swEntry, context string, coded bool) *Case {
+	atoms := &AtomTable{Coded: coded}
 	sname := atoms.New(ClsIdent, "script", "names")
 	operand := atoms.New(ClsIdent, "var", "")
 	newCmd := func() *Cmd { return &Cmd{Name: A(atoms.New(ClsPlainCmd, "cmd", ""))} }
@@ -289,6 +293,23 @@ func RunC03(env *Env, rep *Report) {
 	}
 	// case values given through constants (also in a later token of the value)
 	cases = append(cases, c03ConstCase())
+	// one switch with more than 64 cases (chunk ids beyond a machine word's bits)
+	{
+		var big []swEntry
+		for i := 0; i < 66; i++ {
+			big = append(big, swEntry{Body: "cmd"})
+		}
+		cs := c03Case(big, "only")
+		cs.Name = "c03/big-66-cases"
+		cs.MaxPaths = 4
+		cases = append(cases, cs)
+	}
+	// SMT-string names: bodies that end in an ordinary command
+	for _, sh := range [][]swEntry{{{Body: "cmd"}, {Body: "cmd"}}, {{Body: "cmd"}, {Default: true, Body: "cmd"}, {Body: "cmd"}}} {
+		cs := c03CaseMode(sh, "first", false)
+		cs.Name = strings.Replace(cs.Name, "c03/", "c03/spelled/", 1)
+		cases = append(cases, cs)
+	}
 	// long tails of body-less cases after a default body (chunk id gaps)
 	for _, ctx := range contexts {
 		for _, first := range []string{"ifbreak", "cmd", "iflabelcmd"} {
